@@ -124,7 +124,7 @@ class UnitResult:
     pass
 
 
-def run_verus(path, unit, seed=0, rlimit=None, log_prefix=''):
+def run_verus(path, unit, seed=0, rlimit=None, extra_args=''):
     cfg = U.UNITS[unit]
     mem = cfg.get('mem_kb', 32_000_000)
     thr = cfg.get('threads', 8)
@@ -132,7 +132,7 @@ def run_verus(path, unit, seed=0, rlimit=None, log_prefix=''):
     cmd = ('ulimit -v %d; ulimit -s unlimited 2>/dev/null; export RUST_MIN_STACK=%d; '
            'exec verus %s --error-format=json --output-json --time --multiple-errors 8 --num-threads %d --rlimit %s '
            '--smt-option smt.random_seed=%d %s'
-           % (mem, cfg.get('stack', 64 << 20), path, thr, rl, seed % 1000, cfg.get('extra', '')))
+           % (mem, cfg.get('stack', 64 << 20), path, thr, rl, seed % 1000, cfg.get('extra', '') + ' ' + extra_args))
     t0 = time.time()
     p = subprocess.run(['bash', '-c', cmd], capture_output=True, text=True, cwd=BUILD)
     wall = time.time() - t0
@@ -336,15 +336,62 @@ def scan_assumptions(text):
     return out
 
 
-def process_unit(unit, seed, want_canary=True):
+MOD_OPEN = re.compile(r'^\s*pub mod ([A-Za-z_0-9]+)\s*\{\s*$')
+MOD_CLOSE = re.compile(r'^\s*\}\s*// mod ([A-Za-z_0-9]+)\s*$')
+
+
+def module_map(text):
+    """line number -> module path ('a::b'), from the `pub mod x {` / `} // mod x` markers of the templates"""
+    stack = []
+    out = {}
+    for i, l in enumerate(text.split('\n'), 1):
+        m = MOD_OPEN.match(l)
+        if m:
+            stack.append(m.group(1))
+        out[i] = '::'.join(stack)
+        m = MOD_CLOSE.match(l)
+        if m and stack and stack[-1] == m.group(1):
+            stack.pop()
+    return out
+
+
+ALWAYS_MODULES = ['lemmas', 'numth']
+
+
+def modules_for(prop, text, regions):
+    """modules that contain an obligation of `prop` (labelled clause or region attributed to it)"""
+    if prop in ('C17', 'C18') or prop is None:
+        return None   # everything
+    mm = module_map(text)
+    mods = set()
+    lines = text.split('\n')
+    for i, l in enumerate(lines, 1):
+        for pl, _ in LABEL.findall(l):
+            if prop in pl.split(','):
+                mods.add(mm.get(i, ''))
+    for r in regions:
+        if prop in r.props:
+            mods.add(mm.get(r.out_line0, ''))
+    mods.discard('')
+    all_mods = set(mm.values())
+    for a in ALWAYS_MODULES:
+        if a in all_mods:
+            mods.add(a)
+    return sorted(mods)
+
+
+def process_unit(unit, seed, want_canary=True, prop=None):
     cfg = U.UNITS[unit]
-    path = os.path.join(BUILD, 'u_' + unit + '.rs')
+    path = os.path.join(BUILD, 'u_%s_%s.rs' % (unit, prop or 'all'))
     regions, text = A.assemble(cfg['fragments'], cfg['features'], path)
     text += '\nfn main() {}\n'
     open(path, 'w').write(text)
     out = dict(unit=unit, path=path, regions=regions, text=text)
+    mods = modules_for(prop, text, regions)
+    out['modules'] = mods
+    margs = '' if mods is None else ' '.join('--verify-module ' + m for m in mods)
     with cf.ThreadPoolExecutor(2) as ex:
-        f_main = ex.submit(run_verus, path, unit, seed)
+        f_main = ex.submit(run_verus, path, unit, seed, None, margs)
         f_can = None
         if want_canary:
             ctext, marks = make_canary_text(text, regions)
@@ -354,15 +401,15 @@ def process_unit(unit, seed, want_canary=True):
             for i, l in enumerate(cl, 1):
                 if '/*CANARY*/' in l and i not in marks:
                     marks[i] = None
-            cpath = os.path.join(BUILD, 'u_' + unit + '_canary.rs')
+            cpath = os.path.join(BUILD, 'u_%s_%s_canary.rs' % (unit, prop or 'all'))
             open(cpath, 'w').write(ctext)
-            f_can = ex.submit(run_verus, cpath, unit, seed, 5)
+            f_can = ex.submit(run_verus, cpath, unit, seed, 5, margs + (' --verify-root' if mods is not None else ''))
         res = f_main.result()
         cres = f_can.result() if f_can else None
     failures, undecided, _ = analyse(unit, path, text, regions, res)
     if failures and not undecided:
         # reproducibility: second run, different seed, 4x rlimit
-        res2 = run_verus(path, unit, seed + 17, rlimit=4 * U.UNITS[unit].get('rlimit', 20))
+        res2 = run_verus(path, unit, seed + 17, 4 * U.UNITS[unit].get('rlimit', 20), margs)
         f2, u2, _ = analyse(unit, path, text, regions, res2)
         keyf = lambda f: (f['function'], f['label'], f['kind'], f['expr'])
         k2 = {keyf(f) for f in f2}
@@ -375,11 +422,17 @@ def process_unit(unit, seed, want_canary=True):
     out['canary'] = None
     if cres is not None:
         _, cund, hits = analyse(unit, cpath, ctext, regions, cres, canary_marks=marks)
+        if mods is not None:
+            cmm = module_map(ctext)
+            marks = {ln: rr for ln, rr in marks.items() if (cmm.get(ln, '') in mods or rr is None)}
         missing = [ln for ln in marks if ln not in hits]
         out['canary'] = dict(total=len(marks), failed_as_expected=len(hits),
                              vacuous=[(marks[ln].key if marks[ln] else 'axioms') + ' (canary line %d)' % ln for ln in missing],
                              undecided=cund, wall=cres['wall'])
     out['obligations'] = obligations_of(unit, text, regions)
+    if mods is not None:
+        mm = module_map(text)
+        out['obligations'] = [o for o in out['obligations'] if mm.get(o['line'], '') in mods]
     out['assumption_sites'] = scan_assumptions(text)
     return out
 
@@ -432,7 +485,7 @@ def check_property(prop, tier, seed, replay=None):
     results = []
     undecided = []
     with cf.ThreadPoolExecutor(max(1, min(len(unit_names), 4))) as ex:
-        futs = {ex.submit(process_unit, u, seed): u for u in unit_names}
+        futs = {ex.submit(process_unit, u, seed, True, prop): u for u in unit_names}
         for fut in cf.as_completed(futs):
             u = futs[fut]
             try:
